@@ -113,7 +113,7 @@ def handle (fields : List String) : List String :=
           match Cpf.Scan.buildGraph t (unhex srcHex) (Cpf.Scan.str file) with
           | .ok st =>
               let ents := Cpf.Scan.dedup st.ents
-              ["ok", toString st.ents.length, toString ents.length]
+              ["ok", toString st.ents.length, toString ents.length, toString (Cpf.Scan.passOps st)]
                 ++ ents.flatMap (fun e => [e.kind, toString e.line, toString e.sb, toString e.eb, tohex e.pre])
                 ++ [toString st.edges.length] ++ st.edges.flatMap (fun e => [tohex e.1, tohex e.2])
           | .diag m => ["diag", m]
